@@ -10,7 +10,7 @@ META = {
                    'curve starts at the cursor, falling back to its first control point only when there is none; R16.3 each curve is '
                    'delegated to lyon as {from: cursor, ctrl(s), to} in payload order with the tolerance parameter, every yielded point is '
                    'pushed as LineTo and the cursor becomes the end point; R16.4 the result keeps the winding rule of the input.',
-    'decides': ['R16.1 output alphabet', 'R16.2 cursor law (Close returns to the subpath start)', 'R16.3 faithful delegation of curves', 'R16.4 winding rule preserved', 'R16.5 a curve that begins a subpath emits its starting point'],
+    'decides': ['R16.1 output alphabet', 'R16.2 cursor law (Close returns to the subpath start)', 'R16.3 faithful delegation of curves', 'R16.4 winding rule preserved', 'R16.5 a curve that begins a subpath emits its starting point', 'R16.6 cursor implies recorded subpath start (typestate over the two Option locals)'],
     'does_not_decide': ['deviation <= 8 x tolerance, points lying on the curve in parameter order (lyon_geom)', 'float rounding'],
     'assumptions': ['lyon_geom QuadraticBezierSegment/CubicBezierSegment::flattened(tol) yields points on the curve in order ending at `to` (external, lyon_geom 1.0.19)'],
     'trusted_base': ['lyon_geom 1.0.19'],
@@ -315,6 +315,23 @@ def r16_5(ctx, b, m):
                   'when a %s is the first op of a subpath (no current point) flatten pushes only the points after the curve\'s start: the polyline does not begin at the curve\'s true starting point (its first control point), so the flattened path starts at the first interior point instead' % v)
 
 
+def r16_6(ctx, b, m):
+    """subpath protocol: between ops, whenever flatten has a cursor it also has a recorded subpath start (so that Close
+    returns to it); decided by abstract interpretation of the two Option locals over {None, Some}"""
+    import typestate
+    import sd
+    R = 'R16.6'
+    key = 'path_builder::Path::flatten'
+    cs = sd.cursor_and_start(ctx, b, m)
+    if not ctx.check(cs is not None, R, key + '|cursors', b.loc(), 'cursor and subpath-start record found', 'cannot identify the cursor and the subpath-start record of flatten (fail closed)'):
+        return
+    at = typestate.run(ctx, b, list(cs))
+    sts = at.get(m.bb, set())
+    ctx.check(('N', 'N') in sts and ('S', 'S') in sts, R, key + '|protocol states (positive control)', b.loc(), 'states between ops: %s' % sorted(sts), 'the typestate interpreter does not reach the op loop with the expected states (%s): fail closed' % sorted(sts))
+    ctx.check(('S', 'N') not in sts, R, key + '|cursor implies start', b.loc(), 'no op leaves a cursor without a subpath start',
+              'an op sequence leaves flatten with a cursor but no recorded subpath start (`%s` Some, `%s` None), e.g. a path that begins with line_to: Close then resets the cursor to None and a curve following Close starts at its own control point instead of the subpath start' % (b.local_name(cs[0]), b.local_name(cs[1])))
+
+
 def r16_4(ctx, b):
     R = 'R16.4'
     an = ctx.an(b)
@@ -341,4 +358,5 @@ def run(ctx):
         r16_2(ctx, b, m)
         r16_3(ctx, b, m)
         r16_5(ctx, b, m)
+        r16_6(ctx, b, m)
     r16_4(ctx, b)
